@@ -704,6 +704,21 @@ func (g *Gen) stmt(d int, last bool) N {
 	switch c := g.R.Intn(30 + closureBias); {
 	case c <= 3:
 		want := g.pick([]string{"int", "int", "int", "bool", "list", "str", "map", "any", "set"})
+		// in a nested scope: sometimes re-declare (shadow) a visible outer variable, keeping its type
+		if len(g.scope) > 1 && g.chance(2) {
+			var cands []string
+			for _, v := range g.vars() {
+				if t := g.types[v]; !g.declaredHere(v) && !g.consts[v] && (t == "int" || t == "bool" || t == "list" || t == "str" || t == "map") {
+					cands = append(cands, v)
+				}
+			}
+			if len(cands) > 0 {
+				n := g.pick(cands)
+				e := g.texpr(d, g.types[n])
+				g.declare(n)
+				return Var(n, e)
+			}
+		}
 		e := g.texpr(d, want)
 		n := g.fresh("v")
 		g.declare(n)
